@@ -245,6 +245,8 @@ class G:
             base = self.S(depth - 1)
             if self.is_constant_only(base):
                 base = self.var_leaf()
+                if self.cfg.params and self.cfg.general_pow and self.env["params"] and self.draw(st.integers(0, 5)) == 0:
+                    base = ["param", self.draw(st.sampled_from([p["name"] for p in self.env["params"]]))]   # p ** x
             if self.draw(st.integers(0, 5)) == 0:
                 # nested power with an even inner exponent: (x**2)**1.5 is defined for negative x too
                 base = ["bin", "**", self.var_leaf(), ["const", "pyint", self.draw(st.sampled_from([2, 2, 4]))]]
@@ -269,6 +271,9 @@ class G:
     def un(self, depth):
         f = self.draw(st.sampled_from(["neg"] + self.cfg.funcs))
         a = self.S(depth - 1)
+        if self.cfg.params and self.env["params"] and self.draw(st.integers(0, 9)) == 0:
+            # a function applied directly to a parameter: f(p) must stay symbolic (log(p) * x, asinh(p) + x)
+            a = ["param", self.draw(st.sampled_from([p["name"] for p in self.env["params"]]))]
         if a[0] == "const" and a[1] != "Constant":
             a = self.var_leaf()  # f(2.0) is evaluated by optyx as a Constant-wrapped number anyway
         return ["un", f, a]
@@ -337,6 +342,13 @@ class G:
             a, b, s = make_slice(self.draw, v["n"], n)
             return ["slice", base, a, b, s]
         u, w = view(), view()
+        if self.draw(st.booleans()):
+            # the whole vector against its reversed view (and v[:] against v[::-1]): same base, same bounds, other order
+            n = v["n"]
+            u = base if self.draw(st.booleans()) else ["slice", base, None, None, None]
+            w = ["slice", base, None, None, -1]
+            if self.draw(st.booleans()):
+                u, w = w, u
         Q = self.matrix_data(n, n)
         return ["dot", u, ["matvec", Q, w, self.draw(st.sampled_from(["op", "fn", "op_f"]))], self.draw(st.sampled_from(["dot", "dot", "matmul"]))]
 
